@@ -30,6 +30,24 @@ fn buf_op(b: &mut BitBuffer, tok: &str) -> Option<Result<String, Error>> {
             b.with_write_position_at(pos.parse().ok()?, |b| b.write_bit(x))
                 .map(|_| "ok".to_string())
         }
+        // the buffer is replaced by one over the given octets (which may be more than the bits need)
+        ["init", h, len] => {
+            let bytes = unhex(h)?;
+            let len: usize = len.parse().ok()?;
+            if len > bytes.len() * 8 {
+                return None;
+            }
+            *b = BitBuffer::from_bits(bytes, len);
+            Ok("ok".to_string())
+        }
+        // any write placed at a position: `at:<pos>:<write op>`
+        ["at", pos, rest @ ..] if matches!(rest.first(), Some(&"wb" | &"w" | &"wo" | &"wl" | &"ww")) => {
+            let pos: usize = pos.parse().ok()?;
+            let inner = rest.join(":");
+            // parse once outside of the closure (`Fn`): an unparsable operation is no request at all
+            buf_op(&mut BitBuffer::default(), &inner)?.ok();
+            b.with_write_position_at(pos, |b| buf_op(b, &inner).expect("parsed before"))
+        }
         ["rb"] => b.read_bit().map(|x| b01(x).to_string()),
         ["r", n, off, len] => {
             let mut d = vec![0u8; n.parse().ok()?];
@@ -163,6 +181,21 @@ pub fn handle(args: &[&str]) -> Option<String> {
             out.push(hex(b.content()));
             out.push(b.bit_len().to_string());
             out.push(rp.to_string());
+            // the conversions into a read view: all written bits and no others, from the start
+            {
+                let v = Bits::from(&b);
+                let w = Bits::from((b.content(), b.bit_len()));
+                let o = Bits::from(b.content());
+                if (v.pos(), v.len()) != (0, b.bit_len())
+                    || (w.pos(), w.len()) != (0, b.bit_len())
+                    || (o.pos(), o.len()) != (0, b.content().len() * 8)
+                {
+                    out.push(format!(
+                        "view-differs from(&buffer)={}..{} from((content,len))={}..{} from(content)={}..{}",
+                        v.pos(), v.len(), w.pos(), w.len(), o.pos(), o.len()
+                    ));
+                }
+            }
             out.join(" ")
         }
         ["view", h, len, ops @ ..] => {
